@@ -26,9 +26,10 @@ TRUSTED = [rstate.T5, 'T1 dict/list semantics of the symbolic containers', 'thre
 ASSUMPTIONS = [
     'the quantifier over graph shapes is discharged per function: each contract holds for every stack/iter/names/patches; the induction over the order in which pickle visits a graph is T5 plus the step obligations, not a machine-checked induction',
     'the attribute "ctxs" tested by context.__init__ is never assigned anywhere in pyworkers (syntactic check of the tree on every run)',
-    'concurrent loads on several threads: only through the trusted per-thread semantics of threading.local',
+    'concurrent loads on several threads: through the trusted per-thread semantics of threading.local plus the structural clause that the stack really lives in the attributes of a threading.local instance (re-read from the class body every run); the native replay interleaves two patched loads on two threads',
 ]
 MUTANTS = [
+    ('pyworkers/_remote_pickle/state.py', "    _active_contexts = threading.local()\n", "    _active_contexts = fake_threading_local\n", 'the frame stack is shared by all threads'),
     ('pyworkers/_remote_pickle/state.py', "            RemoteState._active_contexts.stack = []\n            RemoteState._active_contexts.iter = -1\n", "            if not hasattr(RemoteState._active_contexts, 'stack'):\n                RemoteState._active_contexts.stack = []\n                RemoteState._active_contexts.iter = -1\n", 'residue of a failed loads survives into the next one'),
     ('pyworkers/_remote_pickle/state.py', "            if exc[0] is None:\n                if not RemoteState._active_contexts.unused:", "            if True:\n                if not RemoteState._active_contexts.unused:", 'a failed load is masked by the protocol assertions'),
     ('pyworkers/_remote_pickle/state.py', "                patched_state = state.copy()\n", "                patched_state = state\n", 'patches are written into the original state object'),
@@ -43,7 +44,31 @@ def build(ex):
     rstate.install(ex)
     lemmas = []
     lemmas += rstate.context_lemmas(ex, 'C15')
-    lemmas += rstate.getter_lemmas(ex, 'C15')
+    getters = rstate.getter_lemmas(ex, 'C15')
+    lemmas += getters
+
+    # structural: where the frame stack lives.  Every contract here speaks about ONE thread's stack/iter; that concurrent loads on several threads do not
+    # share them is the semantics of threading.local - which holds for the attributes of a threading.local() instance (or of an instance of a plain
+    # subclass), NOT for __slots__ or class-level attributes of a subclass.  Re-read from the class body on every run.
+    def per_thread(c):
+        import ast
+        ci = ex.repo.cls(RS)
+        e = ci.attrs.get('_active_contexts')
+        ok = False
+        if isinstance(e, ast.Call) and not e.args and not e.keywords:
+            fn = ast.unparse(e.func)
+            if fn == 'threading.local':
+                ok = True
+            else:
+                sub = ex.repo.classes.get(ci.module.name + '.' + fn)
+                if sub is not None and any(ast.unparse(b) == 'threading.local' for b in sub.base_exprs):
+                    shared = [a for a in sub.attrs if a in ('__slots__', 'stack', 'iter', 'unused')]
+                    ok = not shared and not any(m in sub.methods for m in ('__getattribute__', '__setattr__', '__getattr__', '__delattr__'))
+        return z3.BoolVal(ok)
+    per_thread.__doc__ = ('the frame stack of a load (stack / iter / unused) lives in the attributes of a threading.local() instance - or of a plain subclass '
+                          'without __slots__ and without class-level defaults for them -, so every thread has its own')
+    if getters:
+        getters[0][0].ensures.append(per_thread)
     lemmas.append(rstate.break_patches_lemma(ex, 'C15', with_protocol_step=False))
     lemmas.append(rstate.child_restored_lemma(ex, 'C15'))
     lemmas += rstate.setstate_lemmas(ex, 'C15')
@@ -51,10 +76,18 @@ def build(ex):
     return lemmas
 
 
+KNOWN_NATIVE = ('child in list, root patch', 'child under plain object, root patch', 'child in dict, root patch',       # F-C15-1
+                'two siblings:', 'three siblings:', 'two siblings one level down:')     # F-C14-1 (run only when no lemma is selected)
+
+
 def replay(ob, repo):
     from pyvc.native import run_script
-    r = run_script('c14_native.py', {'prop': 'C15', 'lemma': ob['lemma'].split(' ')[0].split('.')[-1]}, repo, timeout=120)
-    return bool(r.get('violates')), r
+    lemma = ob['lemma'].split(' ')[0].split('.')[-1]
+    r = run_script('c14_native.py', {'prop': 'C15', 'lemma': lemma}, repo, timeout=120)
+    # the container-held-descendant scenarios fail on the unchanged tree (F-C15-1, obligation L5 .../post#2): they are a witness for that lemma only
+    new = [v for v in r.get('violations', []) if lemma.startswith('L5') or not any(v.startswith(k) for k in KNOWN_NATIVE)]
+    r['violations_not_in_known_findings'] = new
+    return bool(new), r
 
 
 def replay_file(path, repo):
@@ -62,7 +95,7 @@ def replay_file(path, repo):
     from pyvc.native import run_script
     r = run_script('c14_native.py', {'prop': 'C15'}, repo, timeout=120)
     print(json.dumps(r, indent=1, default=str))
-    if r.get('violates'):
+    if [v for v in r.get('violations', []) if not any(v.startswith(k) for k in KNOWN_NATIVE)]:
         print(f'VIOLATION property=C15 replay={path}')
         return 1
     return 0
